@@ -249,7 +249,45 @@ def check_case(c):
     return res
 
 
+# ------------------------------------------------------------------ exactly singular Fisher matrices
+singular_strategy = st.fixed_dictionaries({
+    "size": st.tuples(st.integers(6, 16), st.integers(6, 16)),
+    "comp": component(0),
+    "weight": st.sampled_from(["none", "scalar", "B"]),
+    "errs": f(0.01, 10),
+})
+
+
+def check_singular(c):
+    """Two identical components with the same free parameters: the rows of the Jacobian are pairwise equal, the Fisher matrix
+    is exactly singular and no uncertainty exists.  Whatever covar_errors reports for them, it is not the square root of
+    anything: a stderr must be missing (None / nan / inf) or non-negative - never a negative number that the conversion to
+    sky errors would use as a pixel offset."""
+    res = Res()
+    comp = dict(c["comp"])
+    if not any(comp["vary"]):
+        comp["vary"] = [True] + list(comp["vary"][1:])
+    comps = [comp, dict(comp)]
+    params = make_params(comps, c["size"])
+    free = free_list(comps)
+    nx, ny = c["size"]
+    gx, gy = np.indices((nx, ny))
+    x, y = gx.ravel(), gy.ravel()
+    errs = c["errs"] if c["weight"] != "none" else None
+    B = np.eye(x.size) if c["weight"] == "B" else None
+    out = fitting.covar_errors(params, np.zeros((nx, ny)), errs=errs, B=B)
+    for nm in free:
+        got = out[nm].stderr
+        if got is not None and np.isfinite(got) and got < 0:
+            res.bad("stderr-negative", "singular model (two identical components): %s.stderr = %r" % (nm, got), weight=c["weight"])
+            break
+    res.nontrivial = len(free) >= 4
+    res.label("singular-model")
+    return res
+
+
 TESTS = {
     "derivs": {"strategy": lambda tier: case_strategy, "check": check_case,
                "n": {"quick": 2000, "thorough": 60000}},
+    "singular": {"strategy": lambda tier: singular_strategy, "check": check_singular, "n": {"quick": 200, "thorough": 4000}},
 }
